@@ -50,7 +50,7 @@ PROPERTIES["C12"] = dict(
     ],
 )
 
-PIPE_FILES = ["pipeline/zz_verif_pipe.go", "pipeline/zz_verif_p08.go", "pipeline/zz_verif_p01.go", "pipeline/zz_verif_p01b.go", "pipeline/zz_verif_p01x.go", "pipeline/zz_verif_p01y.go", "pipeline/zz_verif_p01r.go", "pipeline/zz_verif_p13.go", "pipeline/zz_verif_p13m.go", "pipeline/zz_verif_p10.go", "pipeline/zz_verif_p10r.go", "pipeline/zz_verif_p10v.go", "pipeline/zz_verif_p09.go", "pipeline/zz_verif_p14.go", "pipeline/zz_verif_p12.go", "pipeline/zz_verif_p20.go", "pipeline/zz_verif_p18.go", "pipeline/zz_verif_p07.go", "config::config/zz_verif_export.go", "annotation::annotation/zz_verif_export.go", "assertion/global::global/zz_verif_export.go", "assertion/function/functioncontracts::functioncontracts_export/zz_verif_export.go", "assertion/function::function_export/zz_verif_export.go", "util/tokenhelper::tokenhelper_export/zz_verif_export.go"]
+PIPE_FILES = ["pipeline/zz_verif_pipe.go", "pipeline/zz_verif_p08.go", "pipeline/zz_verif_p01.go", "pipeline/zz_verif_p01b.go", "pipeline/zz_verif_p01x.go", "pipeline/zz_verif_p01y.go", "pipeline/zz_verif_p01r.go", "pipeline/zz_verif_p13.go", "pipeline/zz_verif_p13m.go", "pipeline/zz_verif_p10.go", "pipeline/zz_verif_p10r.go", "pipeline/zz_verif_p10v.go", "pipeline/zz_verif_p09.go", "pipeline/zz_verif_p14.go", "pipeline/zz_verif_p12.go", "pipeline/zz_verif_p20.go", "pipeline/zz_verif_p18.go", "pipeline/zz_verif_p07.go", "pipeline/zz_verif_p01t.go", "config::config/zz_verif_export.go", "annotation::annotation/zz_verif_export.go", "assertion/global::global/zz_verif_export.go", "assertion/function/functioncontracts::functioncontracts_export/zz_verif_export.go", "assertion/function::function_export/zz_verif_export.go", "util/tokenhelper::tokenhelper_export/zz_verif_export.go"]
 INFER_FILES = ["inference/zz_verif_c05.go", "inference/zz_verif_c05l2.go", "inference/zz_verif_c06.go", "inference/zz_verif_c04.go", "inference/zz_verif_c15.go", "inference/zz_verif_c15m.go", "inference/zz_verif_c08.go", "inference/zz_verif_registry.go",
                "annotation::annotation/zz_verif_export.go"]
 
@@ -607,3 +607,10 @@ PROPERTIES["C14"]["runs"] += [dict(pkg="accumulation", files=PIPE_FILES, entry="
 PROPERTIES["C14"]["explanation"] += (" Single-line files (P14S): three one-line programs go through the same pipeline and the same obligations X1-X4 - a file with one line start "
                                      "must not be mistaken for an importer-made fake file (defect 32).")
 PROPERTIES["C14"]["bounds"]["quick"] += "; three single-line programs"
+
+PROPERTIES["C01"]["runs"] += [dict(pkg="accumulation", files=PIPE_FILES, entry="Harness_P01T", args=dict(sample_every=1, max_samples=12))]
+PROPERTIES["C01"]["explanation"] += (" P01T: a callee that reads and possibly rewrites the package-level pointer (hands it out and may clear it / returns nil once and allocates / plain getter) called once or twice by five caller "
+    "forms (guard and dereference each call it; result stored and checked; unguarded; early return on nil then a second call; value from one call guarded by another); the oracle runs the calls in order over "
+    "'g is nil' as a term in the opaque flag. The guarded double call over a side-effecting callee is a recorded known finding (NilAway assumes calls are idempotent).")
+PROPERTIES["C01"]["bounds"]["quick"] += "; P01T: all 30 programs (3 callees x 2 initial states x 5 caller forms; known finding: 2 fail)"
+PROPERTIES["C01"]["bounds"]["thorough"] += "; P01T as quick"
